@@ -91,6 +91,12 @@ CHECKS = {
              "quantiles so that every criterion rejects poles on its own, one NaN pattern across all tables, covariance criterion with calc_unc; the "
              "conjugate criterion is exercised by blanking partners at the probe.",
         ref="3/C09"),
+    "C08": dict(
+        technique="runtime monitoring: metamorphic oracle over pairs of real runs (gain, permutation, orthogonal mixing, time unit) with a rounding probe as conditioning guard",
+        text="Exploration: every algorithm class (FDD, EFDD, FSDD, SSIcov cov_mm/cov_R, SSIdat, pLSCF and the five multi-setup variants) is run through a setup "
+             "on base and transformed data; whole pole tables are compared column by column as multisets of (f, xi, shape), plus extracted modes, grid and "
+             "unit normalisation; a third run on data perturbed at 1e-15 marks ill-conditioned columns as not judged.",
+        ref="3/C08"),
 }
 
 PENDING_REASON = "check not built yet in this session (work in progress; the design in DESIGN.md section 3 applies)"
